@@ -9,7 +9,9 @@
 
    State: what the producer still has to do (`todo`: lines it writes itself and paths it sends, in
    walk order), the queue, whether the sender has been dropped, one state per worker, the output
-   written so far, and two ghost fields (`sent`, `scanned`) used only to state the invariants.
+   written so far, and ghost fields used only to state the invariants: `sent`, `scanned`, `said`
+   (lines the producer has written), `log` (the blocks written so far, one entry per lock
+   acquisition) and, in a busy worker, `pre` (the blocks it has already written for its file).
 
    A busy worker holds the blocks it has still to write for the file it received; a block is what one
    `handle_event` call (or the count `println!`) writes while it holds the stdout lock, so a step
@@ -22,13 +24,22 @@
 From Boreal Require Import Base.Prelude.
 Local Open Scope nat_scope.
 
+(* n-way interleaving, built the way the log grows: `MergeR ls l` — l is obtained from the empty
+   list by repeatedly appending one element to l and to one of the components of ls; every
+   component is then a subsequence of l, in order, and l has no other elements *)
+Inductive MergeR {B : Type} : list (list B) -> list B -> Prop :=
+| MR_nil : forall ls, Forall (fun l => l = []) ls -> MergeR ls []
+| MR_snoc : forall ls1 l x ls2 lg,
+    MergeR (ls1 ++ l :: ls2) lg -> MergeR (ls1 ++ (l ++ [x]) :: ls2) (lg ++ [x]).
+
+
 Section Pool.
   Variables F L : Type.
   Variable blocks_of : F -> list (list L).
 
   Inductive wstate :=
   | WIdle                                    (* blocked in / about to call recv() *)
-  | WBusy (f : F) (rest : list (list L))     (* scanning f; blocks still to be written *)
+  | WBusy (f : F) (pre rest : list (list L)) (* scanning f; blocks written (ghost) / still to be written *)
   | WExited.                                 (* recv() returned Err: loop left, thread finished *)
 
   Definition action := (L + F)%type.
@@ -40,31 +51,33 @@ Section Pool.
     closed : bool;
     workers : list wstate;
     out : list L;
-    scanned : list F }.     (* ghost: files whose scan has completed, in completion order *)
+    scanned : list F;       (* ghost: files whose scan has completed, in completion order *)
+    said : list L;          (* ghost: lines written by the producer *)
+    log : list (list L) }.  (* ghost: the blocks written, in order *)
 
   Definition init (acts : list action) (n : nat) : state :=
-    mk acts [] [] false (repeat WIdle n) [] [].
+    mk acts [] [] false (repeat WIdle n) [] [] [] [].
 
   Inductive step (cap : nat) : state -> state -> Prop :=
-  | StepSay : forall l td se q c ws o sc,          (* the main thread writes a line of its own *)
-      step cap (mk (inl l :: td) se q c ws o sc) (mk td se q c ws (o ++ [l]) sc)
-  | StepSend : forall f td se q ws o sc,           (* sender.send(path) completes: room in the channel *)
+  | StepSay : forall l td se q c ws o sc sd lg,       (* the main thread writes a line of its own *)
+      step cap (mk (inl l :: td) se q c ws o sc sd lg) (mk td se q c ws (o ++ [l]) sc (sd ++ [l]) (lg ++ [[l]]))
+  | StepSend : forall f td se q ws o sc sd lg,        (* sender.send(path) completes: room in the channel *)
       length q < cap ->
-      step cap (mk (inr f :: td) se q false ws o sc) (mk td (se ++ [f]) (q ++ [f]) false ws o sc)
-  | StepClose : forall se q ws o sc,               (* drop(sender) *)
-      step cap (mk [] se q false ws o sc) (mk [] se q true ws o sc)
-  | StepRecv : forall f td se q c w1 w2 o sc,      (* a waiting worker receives the head of the queue *)
-      step cap (mk td se (f :: q) c (w1 ++ WIdle :: w2) o sc)
-               (mk td se q c (w1 ++ WBusy f (blocks_of f) :: w2) o sc)
-  | StepEmit : forall f b bs td se q c w1 w2 o sc, (* one event block, written under the stdout lock *)
-      step cap (mk td se q c (w1 ++ WBusy f (b :: bs) :: w2) o sc)
-               (mk td se q c (w1 ++ WBusy f bs :: w2) (o ++ b) sc)
-  | StepFinish : forall f td se q c w1 w2 o sc,    (* end of the loop body *)
-      step cap (mk td se q c (w1 ++ WBusy f [] :: w2) o sc)
-               (mk td se q c (w1 ++ WIdle :: w2) o (sc ++ [f]))
-  | StepExit : forall td se w1 w2 o sc,            (* recv() fails: channel empty and closed *)
-      step cap (mk td se [] true (w1 ++ WIdle :: w2) o sc)
-               (mk td se [] true (w1 ++ WExited :: w2) o sc).
+      step cap (mk (inr f :: td) se q false ws o sc sd lg) (mk td (se ++ [f]) (q ++ [f]) false ws o sc sd lg)
+  | StepClose : forall se q ws o sc sd lg,            (* drop(sender) *)
+      step cap (mk [] se q false ws o sc sd lg) (mk [] se q true ws o sc sd lg)
+  | StepRecv : forall f td se q c w1 w2 o sc sd lg,   (* a waiting worker receives the head of the queue *)
+      step cap (mk td se (f :: q) c (w1 ++ WIdle :: w2) o sc sd lg)
+               (mk td se q c (w1 ++ WBusy f [] (blocks_of f) :: w2) o sc sd lg)
+  | StepEmit : forall f pre b bs td se q c w1 w2 o sc sd lg, (* one event block, written under the stdout lock *)
+      step cap (mk td se q c (w1 ++ WBusy f pre (b :: bs) :: w2) o sc sd lg)
+               (mk td se q c (w1 ++ WBusy f (pre ++ [b]) bs :: w2) (o ++ b) sc sd (lg ++ [b]))
+  | StepFinish : forall f pre td se q c w1 w2 o sc sd lg,    (* end of the loop body *)
+      step cap (mk td se q c (w1 ++ WBusy f pre [] :: w2) o sc sd lg)
+               (mk td se q c (w1 ++ WIdle :: w2) o (sc ++ [f]) sd lg)
+  | StepExit : forall td se w1 w2 o sc sd lg,         (* recv() fails: channel empty and closed *)
+      step cap (mk td se [] true (w1 ++ WIdle :: w2) o sc sd lg)
+               (mk td se [] true (w1 ++ WExited :: w2) o sc sd lg).
 
   Inductive reachable (cap : nat) (s0 : state) : state -> Prop :=
   | ReachRefl : reachable cap s0 s0
@@ -81,14 +94,15 @@ Section Pool.
 
   Definition lines_of (f : F) : list L := concat (blocks_of f).
 
-  Definition inflight_of (w : wstate) : list F := match w with WBusy f _ => [f] | _ => [] end.
-  Definition pending_of (w : wstate) : list L := match w with WBusy _ rest => concat rest | _ => [] end.
+  Definition inflight_of (w : wstate) : list F := match w with WBusy f _ _ => [f] | _ => [] end.
+  Definition pending_of (w : wstate) : list L := match w with WBusy _ _ rest => concat rest | _ => [] end.
+  Definition pre_of (w : wstate) : list (list L) := match w with WBusy _ pre _ => pre | _ => [] end.
   Definition inflight (ws : list wstate) : list F := flat_map inflight_of ws.
   Definition pending (ws : list wstate) : list L := flat_map pending_of ws.
 
   (* termination measure: strictly decreases along every step *)
   Definition wweight (w : wstate) : nat :=
-    match w with WIdle => 1 | WBusy _ rest => 2 + length rest | WExited => 0 end.
+    match w with WIdle => 1 | WBusy _ _ rest => 2 + length rest | WExited => 0 end.
   Definition aweight (a : action) : nat :=
     match a with inl _ => 1 | inr f => 4 + length (blocks_of f) end.
   Definition measure (s : state) : nat :=
@@ -106,6 +120,8 @@ Arguments closed {F L}.
 Arguments workers {F L}.
 Arguments out {F L}.
 Arguments scanned {F L}.
+Arguments said {F L}.
+Arguments log {F L}.
 Arguments init {F L}.
 Arguments step {F L}.
 Arguments reachable {F L}.
